@@ -112,6 +112,16 @@ CHECKS["C08"] = dict(
     note="Trusts the ~120-line reference expander, csv/json/yaml writers, tracemalloc.",
     design="DESIGN.md section 4 C08")
 
+CHECKS["C13"] = dict(
+    category="fault_enumeration",
+    technique="real runtime traces (generated single runs and CLI launches) x exhaustive prefix enumeration (crash at every line) with a reference verdict; Hypothesis-drawn permutations, per-file-order interleavings and subsets with a metamorphic order-independence oracle; idempotent-finalise invariant",
+    text=("Crash-point enumeration over real traces (2.4k traces quick -> ~50k (trace, cut) and (trace, order) evaluations; 51k traces "
+          "thorough): every prefix of every emitted trace is aggregated and compared with a 30-line reference verdict (status, missing "
+          "edge named, missing nodes, no orphans, launch roll-ups); every drawn order of every drawn subset must give the verdict of "
+          "the same set in emission order; finalising twice must change nothing."),
+    note="Trusts the reference verdict function and the reconstruction of directory-mode emission order (sequential single-process writer).",
+    design="DESIGN.md section 4 C13")
+
 NOT_YET = {}
 
 
